@@ -136,5 +136,5 @@ def check(rep, prog, rule):
         want = ("ALL", ("NOT", ("P", atom)))
         rep.check(f == want, rule, where, inst, "the decision to forward a subscription change to the broker must be taken exactly when no (other) proxy is subscribed — ALL(NOT(P:%s)) — but this one is %s" % (atom, show(f)),
                   detail={"formula": show(f)})
-    rep.floor(rule, "proxy multiplexer decisions", len(ds), 7)
+    rep.floor(rule, "proxy multiplexer decisions", len(ds), 5)
     return len(ds)
